@@ -24,7 +24,7 @@ rc=0
 stats="[]"
 for mode in empty seeded; do
   log="$RUN/$mode.log"
-  (cd "$F" && cargo +nightly fuzz run --fuzz-dir . "$TARGET" "$RUN/$mode" -- -seed="$SEED" -max_total_time="$half" -len_control=0 -max_len=4096 -timeout=20 -rss_limit_mb=4096 -print_final_stats=1 -detect_leaks=0 -artifact_prefix="$F/artifacts/$TARGET/" >"$log" 2>&1)
+  (cd "$F" && cargo +nightly fuzz run --fuzz-dir . "$TARGET" "$RUN/$mode" -- -seed="$SEED" -max_total_time="$half" -len_control=0 -max_len=4096 -timeout=60 -rss_limit_mb=4096 -print_final_stats=1 -detect_leaks=0 -artifact_prefix="$F/artifacts/$TARGET/" >"$log" 2>&1)
   frc=$?
   if grep -q "^VIOLATION" "$log"; then
     grep -A2 "^VIOLATION" "$log" | head -3
@@ -33,6 +33,22 @@ for mode in empty seeded; do
     # crash/timeout/oom without an oracle message: a hang or a crash outside catch_unwind
     art=$(grep -oE "Test unit written to [^ ]+" "$log" | tail -1 | awk '{print $5}')
     kind=$(grep -oE "ERROR: libFuzzer: [a-z-]+|ERROR: AddressSanitizer: [a-z-]+" "$log" | tail -1)
+    if echo "$kind" | grep -q "timeout" && [ -n "${art:-}" ]; then
+      # a wall-clock timeout of libFuzzer is a load artefact unless the unit, re-executed alone with a
+      # generous budget, still does not return (seen: a 40 ms unit reported after 20 s on a machine
+      # running three other campaigns). Only for C08 is a confirmed hang a violation; for the other
+      # properties a time budget is never a verdict (exit 2 = inconclusive).
+      if (cd "$F" && timeout 900 cargo +nightly fuzz run --fuzz-dir . "$TARGET" "$art" -- -timeout=600 -detect_leaks=0 >"$RUN/$mode.confirm.log" 2>&1); then
+        echo "note: libFuzzer timeout on $(basename "$art") not confirmed (unit returns when run alone); ignored"
+        frc=0
+      elif [ "$ID" != "C08" ]; then
+        echo "INCONCLUSIVE: unit $(basename "$art") of $TARGET does not return within 600 s when run alone (time budgets are verdicts only for C08)" >&2
+        [ $rc -eq 0 ] && rc=2
+        frc=0
+      fi
+    fi
+  fi
+  if [ $frc -ne 0 ] && ! grep -q "^VIOLATION" "$log"; then
     mkdir -p "$VERIF_DIR/replays/$ID"
     dest="$VERIF_DIR/replays/$ID/fuzz-artifact-$(basename "${art:-unknown}")"
     [ -n "${art:-}" ] && cp "$art" "$dest"
@@ -55,7 +71,7 @@ python3 - "$VERIF_DIR/evidence/$ID.json" "$stats" "$TARGET" "$SECS" "$rc" <<'PY'
 import json,sys
 p=sys.argv[1]; e=json.load(open(p))
 e['coverage']['fuzz']={"engine":"libFuzzer via cargo-fuzz (ASan, debug assertions)","target":sys.argv[3],"seconds":int(sys.argv[4]),"campaigns":json.loads(sys.argv[2])}
-if int(sys.argv[5])!=0: e['violations']=e.get('violations',0)+1
+if int(sys.argv[5])==1: e['violations']=e.get('violations',0)+1
 json.dump(e,open(p,'w'),indent=2)
 PY
 echo "$ID thorough fuzz stage: $stats"
